@@ -519,9 +519,9 @@ func (x *Exec) sigOf(key, from string) *types.Signature {
 	// interface method pkg.Iface.Method
 	parts := strings.Split(key, ".")
 	if len(parts) >= 3 {
-		for _, p := range x.ld.pkgs {
-			if shortPkg(p.PkgPath) == strings.Join(parts[:len(parts)-2], ".") && p.Types != nil {
-				if obj := p.Types.Scope().Lookup(parts[len(parts)-2]); obj != nil {
+		if tp, ok := x.ld.types[strings.Join(parts[:len(parts)-2], ".")]; ok {
+			{
+				if obj := tp.Scope().Lookup(parts[len(parts)-2]); obj != nil {
 					if it, ok := obj.Type().Underlying().(*types.Interface); ok {
 						for i := 0; i < it.NumMethods(); i++ {
 							if it.Method(i).Name() == parts[len(parts)-1] {
